@@ -286,11 +286,14 @@ pub fn make_module() -> KMap {
 
                     let mut write_index = 0;
                     for read_index in 0..l.len() {
-                        let value = l.data()[read_index].clone();
+                        // The predicate may have removed values from the list
+                        let Some(value) = l.data().get(read_index).cloned() else {
+                            break;
+                        };
                         match ctx.vm.call_function(f.clone(), value.clone()) {
                             Ok(KValue::Bool(result)) => {
-                                if result {
-                                    l.data_mut()[write_index] = value;
+                                if result && let Some(slot) = l.data_mut().get_mut(write_index) {
+                                    *slot = value;
                                     write_index += 1;
                                 }
                             }
